@@ -5,6 +5,11 @@
 //! `reconfigure` from ppem 8 to ppem 16 that fails to re-derive one of the buffers changes a pen
 //! stream (or turns an error into a success).
 //!
+//! Glyphs 8..18 form the out-of-range write family: a glyph program whose first storage / cvt write is
+//! out of range (index len, len+1, 0x7FFF; WS, WCVTP, WCVTF; in-range-then-out and out-then-in
+//! variants) and which then shows storage[2] / cvt[0]; glyphs 8 and 14 overwrite those cells privately
+//! so that a following draw through the same caller buffer would see their leftovers.
+//!
 //! Built with write-fonts only (GlyfLocaBuilder + FontBuilder) from the constants below.
 
 use font_types::{Fixed, FWord, LongDateTime, Tag, UfWord};
@@ -39,6 +44,8 @@ const EIF: u8 = 0x59;
 const IDEF: u8 = 0x89;
 const PUSHB1: u8 = 0xB0; // pushes 1 byte
 const PUSHB2: u8 = 0xB1; // pushes 2 bytes
+const PUSHW2: u8 = 0xB9; // pushes 2 words
+const WCVTF: u8 = 0x70;
 const UNUSED_OPCODE: u8 = 0x91;
 
 /// fpgm: function 0 = ( v -- ) set y of glyph point 1 to v (26.6)
@@ -48,7 +55,9 @@ fn fpgm() -> Vec<u8> {
 
 fn prep() -> Vec<u8> {
     let _ = ELSE_;
-    let mut p = vec![MPPEM, PUSHB1, 12, LT, IF];
+    // unconditional: storage[2] = 160 (read by the out-of-range write family)
+    let mut p = vec![PUSHB2, 2, 160, WS];
+    p.extend([MPPEM, PUSHB1, 12, LT, IF]);
     // storage[0] = 128
     p.extend([PUSHB2, 0, 128, WS]);
     // cvt[1] = 77
@@ -75,6 +84,27 @@ fn glyph_programs() -> Vec<Vec<u8>> {
         vec![PUSHB2, 1, 5, WS, PUSHB1, 0, RS, PUSHB1, 0, CALL],
         // 7: glyph-time write to cvt[2], then cvt[1] shows
         vec![PUSHB2, 2, 9, WCVTP, PUSHB1, 1, RCVT, PUSHB1, 0, CALL],
+        // ---- out-of-range write family (maxStorage = 4, cvt length = 3; prep sets storage[2] = 160
+        // unconditionally and cvt[0] = 100 units). An out-of-range WS/WCVTP/WCVTF is ignored in
+        // non-pedantic mode; what is read afterwards must still be the instance's value, whoever
+        // supplied the scratch buffer and whatever it contains.
+        // 8: A(storage): private overwrite of storage[2], then show it
+        vec![PUSHB2, 2, 99, WS, PUSHB1, 2, RS, PUSHB1, 0, CALL],
+        // 9..11: B(storage): first write at index len, len+1, 0x7FFF; then show storage[2]
+        vec![PUSHB2, 4, 7, WS, PUSHB1, 2, RS, PUSHB1, 0, CALL],
+        vec![PUSHB2, 5, 7, WS, PUSHB1, 2, RS, PUSHB1, 0, CALL],
+        vec![PUSHW2, 0x7F, 0xFF, 0, 7, WS, PUSHB1, 2, RS, PUSHB1, 0, CALL],
+        // 12: first write in range, second out of range
+        vec![PUSHB2, 1, 5, WS, PUSHB2, 4, 7, WS, PUSHB1, 2, RS, PUSHB1, 0, CALL],
+        // 13: first write out of range, second in range (to another cell)
+        vec![PUSHB2, 4, 7, WS, PUSHB2, 1, 5, WS, PUSHB1, 2, RS, PUSHB1, 0, CALL],
+        // 14: A(cvt): private overwrite of cvt[0], then show it
+        vec![PUSHB2, 0, 50, WCVTP, PUSHB1, 0, RCVT, PUSHB1, 0, CALL],
+        // 15..18: B(cvt): WCVTP at len, len+1, 0x7FFF and WCVTF at len; then show cvt[0]
+        vec![PUSHB2, 3, 9, WCVTP, PUSHB1, 0, RCVT, PUSHB1, 0, CALL],
+        vec![PUSHB2, 4, 9, WCVTP, PUSHB1, 0, RCVT, PUSHB1, 0, CALL],
+        vec![PUSHW2, 0x7F, 0xFF, 0, 9, WCVTP, PUSHB1, 0, RCVT, PUSHB1, 0, CALL],
+        vec![PUSHB2, 3, 9, WCVTF, PUSHB1, 0, RCVT, PUSHB1, 0, CALL],
     ]
 }
 
